@@ -40,9 +40,9 @@ def resp_tuple(m):
 #-------------------------------------------------------------------------
 
 class C18HarnessCL(Component):
-  def construct(s, nports, types, src_msgs, nresp, stall_prob, latency, src_init, src_intv, sink_init, sink_intv, cmp_fns):
+  def construct(s, nports, types, src_msgs, nresp, stall_prob, latency, src_init, src_intv, sink_init, sink_intv, cmp_fns, mem_nbytes):
     s.srcs = [TestSrcCL(types[i][0], src_msgs[i], src_init[i], src_intv[i]) for i in range(nports)]
-    s.mem = MagicMemoryCL(nports, list(types), stall_prob, latency, 1 << 16)
+    s.mem = MagicMemoryCL(nports, list(types), stall_prob, latency, mem_nbytes)
     s.sinks = [TestSinkCL(types[i][1], [None] * nresp[i], sink_init[i], sink_intv[i], None, cmp_fns[i]) for i in range(nports)]
     for i in range(nports):
       connect(s.srcs[i].send, s.mem.ifc[i].req)
@@ -55,9 +55,9 @@ class C18HarnessCL(Component):
     return s.mem.line_trace()
 
 class C18HarnessRTL(Component):
-  def construct(s, nports, types, src_msgs, nresp, stall_prob, extra_latency, src_init, src_intv, sink_init, sink_intv, cmp_fns):
+  def construct(s, nports, types, src_msgs, nresp, stall_prob, extra_latency, src_init, src_intv, sink_init, sink_intv, cmp_fns, mem_nbytes):
     s.srcs = [SourceRTL(types[i][0], src_msgs[i], src_init[i], src_intv[i]) for i in range(nports)]
-    s.mem = MagicMemoryRTL(nports, list(types), stall_prob, extra_latency, 1 << 16)
+    s.mem = MagicMemoryRTL(nports, list(types), stall_prob, extra_latency, mem_nbytes)
     s.sinks = [SinkRTL(types[i][1], [None] * nresp[i], sink_init[i], sink_intv[i], None, cmp_fns[i]) for i in range(nports)]
     for i in range(nports):
       s.srcs[i].send //= s.mem.ifc[i].req
@@ -119,7 +119,7 @@ class C18ReuseSrcCL(Component):
 class C18HarnessAlias(Component):
   """MagicMemoryCL driven per port by the stock RTL test source through the auto-inserted RTL->CL adapter ('rtlsrc'), by
   C18ReuseSrcCL (its modes), or by the stock TestSrcCL ('cl')"""
-  def construct(s, nports, types, drivers, reqs, stall_prob, latency, src_init, src_intv, sink_init, sink_intv, cmp_fns):
+  def construct(s, nports, types, drivers, reqs, stall_prob, latency, src_init, src_intv, sink_init, sink_intv, cmp_fns, mem_nbytes):
     from pymtl3.stdlib.test_utils.test_srcs import TestSrcRTL
     def mk(i):
       if drivers[i] == 'rtlsrc':
@@ -128,7 +128,7 @@ class C18HarnessAlias(Component):
         return TestSrcCL(types[i][0], [types[i][0](*r) for r in reqs[i]], src_init[i], src_intv[i])
       return C18ReuseSrcCL(types[i][0], reqs[i], src_init[i], src_intv[i], drivers[i])
     s.srcs = [mk(i) for i in range(nports)]
-    s.mem = MagicMemoryCL(nports, list(types), stall_prob, latency, 1 << 16)
+    s.mem = MagicMemoryCL(nports, list(types), stall_prob, latency, mem_nbytes)
     s.sinks = [TestSinkCL(types[i][1], [None] * len(reqs[i]), sink_init[i], sink_intv[i], None, cmp_fns[i]) for i in range(nports)]
     for i in range(nports):
       connect(s.srcs[i].send, s.mem.ifc[i].req)       # for 'rtlsrc': RTL master -> CL memory, adapter inserted by connect
@@ -171,6 +171,22 @@ def hook_memory_fl(fl, clock, log):
     return f
   fl.read, fl.write, fl.amo = wrap(fl.read), wrap(fl.write), wrap(fl.amo)
 
+def put_image(memc, fl, image):
+  """write_mem; `write_mem` / `read_mem` assert len(mem) > addr + size, so the very last byte of the array is beyond their
+  reach: an image that ends at the last byte puts / gets that byte through the bytearray itself"""
+  base, data = image[0], bytes(image[1])
+  if base + len(data) < len(fl.mem): memc.write_mem(base, data)
+  else:
+    assert base + len(data) == len(fl.mem)
+    if len(data) > 1: memc.write_mem(base, data[:-1])
+    fl.mem[base + len(data) - 1] = data[-1]
+
+def get_image(memc, fl, dump):
+  base, size = dump
+  if base + size < len(fl.mem): return list(memc.read_mem(base, size))
+  assert base + size == len(fl.mem)
+  return (list(memc.read_mem(base, size - 1)) if size > 1 else []) + [fl.mem[base + size - 1]]
+
 class Run:
   """result of one simulation"""
   def __init__(self):
@@ -200,10 +216,10 @@ def run_system(kind, cfg, image, dump, max_cycles=3000):
   msgs = [[mk_req(widths[i], r) for r in cfg['reqs'][i]] for i in range(n)]
   H = C18HarnessCL if kind == 'cl' else C18HarnessRTL
   th = H(n, types, msgs, [len(m) for m in msgs], cfg['stall_prob'], cfg['latency'],
-         cfg['src_init'], cfg['src_intv'], cfg['sink_init'], cfg['sink_intv'], [mk_cmp(i) for i in range(n)])
+         cfg['src_init'], cfg['src_intv'], cfg['sink_init'], cfg['sink_intv'], [mk_cmp(i) for i in range(n)], cfg.get('mem_nbytes', 1 << 16))
   th.elaborate()
   holder['top'] = th
-  th.mem.write_mem(image[0], bytes(image[1]))
+  put_image(th.mem, th.mem.mem, image)
   th.apply(DefaultPassGroup(linetrace=False))
   hook_memory_fl(th.mem.mem, clock, R.log)
   draws = [[] for _ in range(n)]
@@ -266,14 +282,14 @@ def run_system(kind, cfg, image, dump, max_cycles=3000):
     th.sim_tick(); sample(th.sim_cycle_count())
   R.cycles = th.sim_cycle_count() + 1
   R.env = [envd[c] for c in range(R.cycles)]
-  R.image = list(th.mem.read_mem(dump[0], dump[1]))
+  R.image = get_image(th.mem, th.mem.mem, dump)
   return R
 
-def run_fl(dbits, image, dump, reqs):
+def run_fl(dbits, image, dump, reqs, mem_nbytes=1 << 16):
   """direct calls on a MagicMemoryFL; returns (responses as the memories would build them, image)"""
-  fl = MagicMemoryFL(1 << 16)
+  fl = MagicMemoryFL(mem_nbytes)
   fl.elaborate()
-  fl.write_mem(image[0], bytes(image[1]))
+  put_image(fl, fl, image)
   nb = dbits >> 3
   AT = mk_bits(32); DT = mk_bits(dbits)
   out = []
@@ -288,7 +304,7 @@ def run_fl(dbits, image, dump, reqs):
     else:
       v = fl.amo(mk_bits(4)(t), AT(a), k, DT(d))
       out.append([t, o, 0, l, int(v)])
-  return out, list(fl.read_mem(dump[0], dump[1]))
+  return out, get_image(fl, fl, dump)
 
 def run_alias(cfg, image, dump, max_cycles=3000):
   """MagicMemoryCL with per-port drivers cfg['drivers'] (see C18HarnessAlias). Records the processing order (requests as
@@ -306,10 +322,10 @@ def run_alias(cfg, image, dump, max_cycles=3000):
       return True
     return f
   th = C18HarnessAlias(n, types, cfg['drivers'], cfg['reqs'], cfg['stall_prob'], cfg['latency'],
-                       cfg['src_init'], cfg['src_intv'], cfg['sink_init'], cfg['sink_intv'], [mk_cmp(i) for i in range(n)])
+                       cfg['src_init'], cfg['src_intv'], cfg['sink_init'], cfg['sink_intv'], [mk_cmp(i) for i in range(n)], cfg.get('mem_nbytes', 1 << 16))
   th.elaborate()
   holder['top'] = th
-  th.mem.write_mem(image[0], bytes(image[1]))
+  put_image(th.mem, th.mem.mem, image)
   th.apply(DefaultPassGroup(linetrace=False))
   hook_memory_fl(th.mem.mem, clock, R.log)
   th.sim_reset()
@@ -320,5 +336,5 @@ def run_alias(cfg, image, dump, max_cycles=3000):
     th.sim_tick()
   R.cycles = th.sim_cycle_count() + 1
   R.env = None
-  R.image = list(th.mem.read_mem(dump[0], dump[1]))
+  R.image = get_image(th.mem, th.mem.mem, dump)
   return R
